@@ -116,7 +116,7 @@ def _(L):
         st.write_where("setmem", lambda ad: (T.eq(ad[0], r), Mem(pre, ad[1])))
     return LoopInv(state=st, loose=[
         Loose("memo_has", memo_shrinks_unless(lambda x, l: And(Or(x == a, x == b), Mem(pre, l)))),
-        Loose("stats_has", lambda new, old: [Schema("stats-monotone", (Int,), lambda u: Implies(old(u), new(u)), trigger=("stats_has",))])])
+        Loose("stats_has", lambda new, old, *_: [Schema("stats-monotone", (Int,), lambda u: Implies(old(u), new(u)), trigger=("stats_has",))])])
 
 
 @REG.loop("explicit.unlink", 1)
@@ -127,7 +127,7 @@ def _(L):
     n0 = Len(E.elems(ll))
     k = L.k
 
-    def c_elems(new, old):
+    def c_elems(new, old, *_):
         return [Schema("only-the-local-list-shrinks", (Ref,),
                        lambda x: If(x == ll, Len(new(x)) == n0 - k, new(x) == old(x)), trigger=("elems",))]
     return LoopInv(loose=[Loose("elems", c_elems)], facts=[k >= 0, k <= n0])
